@@ -785,20 +785,9 @@ class FileScanHelper:
 
         if new_tokens[-1].is_pragma:
             pragma_token = cast(PragmaToken, new_tokens[-1])
-            # The keys are line numbers, negated for pragmas that use the alternate prefix.
-            for pragma_line_number in sorted(pragma_token.pragma_lines.keys(), key=abs)[
-                ::-1
-            ]:
-                if abs(pragma_line_number) > next_replacement.end_token.line_number:
-                    pragma_token.adjust_pragma_line_number(
-                        pragma_line_number,
-                        pragma_line_number
-                        + (
-                            line_number_delta
-                            if pragma_line_number > 0
-                            else -line_number_delta
-                        ),
-                    )
+            pragma_token.adjust_pragma_line_numbers_after(
+                next_replacement.end_token.line_number, line_number_delta
+            )
 
         actual_tokens.clear()
         actual_tokens.extend(new_tokens)
